@@ -303,7 +303,7 @@ def cases(tier, seed):
             # restarts on a strongly perturbed objective with a demanding curvature test: the pair (last restored point -> x) is often rejected
             yield {"kind": "run", "problem": ps, "maxcor": int(rng.integers(2, 7)), "maxiter": int(rng.integers(6, 12)),
                    "switch": {"switch_at": int(rng.integers(2, 7)), "variant": "indefinite", "vseed": int(rng.integers(0, 2**31 - 1)),
-                              "strength": float(rng.uniform(1.0, 4.0)), "eps_SY": float(gen.pick(rng, [1e-2, 0.1, 0.3])), "on_restart": True}}
+                              "strength": float(rng.uniform(1.0, 4.0)), "eps_SY": float(gen.pick(rng, [1e-2, 0.1, 0.3])), "on_restart": bool(i % 2 == 0)}}
             continue
         yield {"kind": "run", "problem": ps, "maxcor": int(rng.integers(1, 7)), "maxiter": int(rng.integers(6, 16)),
                "switch": {"switch_at": int(rng.integers(1, 7)), "variant": gen.pick(rng, ["reg", "indefinite", "indefinite"]),
